@@ -156,6 +156,18 @@ def _structural_decorators(repo):
 
 STRUCTURAL = [_structural_decorators]
 
+
+def _standin(repo, seed, tier):
+    from pyvc.standin import run_standin
+    r = run_standin('C01', tier, seed, repo)
+    for v in r.get('violations', []):
+        v['label'] = '%s [%s]' % (v['label'], v.get('signature', ''))
+    return r
+
+
+_standin.tiers = ('quick', 'thorough')
+BOUNDED = [_standin]
+
 _errors = [
     Contract(id='C01.SyntaxError.' + n, prop='C01', clause='result attributes of get_syntax_errors complete normally',
              file='jedi/api/errors.py', qualname='SyntaxError.' + n, params={'self': Obj('JErr')},
